@@ -37,14 +37,19 @@ using namespace ASAM::CMP;
 typedef std::vector<uint8_t> Bytes;
 
 // ---- allocation fill pattern (C20): every fresh operator-new block is filled with VERIF_FILL before use ----
-static int g_fill = -1;
+static unsigned char g_fillPat[16];
+static size_t g_fillLen = 0;
 void* operator new(size_t n)
 {
     void* p = malloc(n ? n : 1);
     if (!p)
         abort();
-    if (g_fill >= 0)
-        memset(p, g_fill, n);
+    if (g_fillLen)
+    {
+        unsigned char* q = static_cast<unsigned char*>(p);
+        for (size_t i = 0; i < n; ++i)
+            q[i] = g_fillPat[i % g_fillLen];
+    }
     return p;
 }
 void operator delete(void* p) noexcept
@@ -918,9 +923,18 @@ static std::string runCase(const std::vector<std::string>& lines)
 
 int main(int argc, char** argv)
 {
+    // VERIF_FILL: hex string (1..16 bytes) repeated over every fresh operator-new block
     const char* fill = getenv("VERIF_FILL");
     if (fill && *fill)
-        g_fill = atoi(fill) & 255;
+    {
+        size_t len = strlen(fill) / 2;
+        for (size_t i = 0; i < len && i < sizeof(g_fillPat); ++i)
+        {
+            unsigned v = 0;
+            sscanf(fill + 2 * i, "%2x", &v);
+            g_fillPat[g_fillLen++] = static_cast<unsigned char>(v);
+        }
+    }
     int threads = 1;
     const char* path = nullptr;
     for (int i = 1; i < argc; ++i)
